@@ -1,6 +1,7 @@
 import Driver.Common
 import Sourmash.Model.Ani
 import Sourmash.Model.AniFloat
+import Sourmash.Model.Scaled
 /-! C19 driver: the ANI model instantiated with `Float` (model column) and the property's demands
 (spec column).  Floats travel as 16-hex-digit bit patterns, `nan` for NaN, `-` for `None`. -/
 open Driver Sourmash.Ani
@@ -25,8 +26,6 @@ def ciDegenerate (c : Float) (k scaled n : Nat) (conf : Option Float) : Option (
 
 def ordTok (a b : Float) : String :=
   if a < b then "lt" else if a == b then "eq" else if a > b then "gt" else "unordered"
-
-def isect (a b : List Nat) : Nat := (a.filter fun x => b.contains x).length
 
 def inUnit (x : Float) : Bool := 0.0 ≤ x && x ≤ 1.0
 
@@ -78,21 +77,37 @@ def stepC19 (s : Unit) (ws : List String) : Unit × Resp :=
   | ["mid", "f12", c, k, sc, n, conf, z, pest] =>
     let (c, k, sc, n, z, pest) := (pf c, k.toNat!, sc.toNat!, n.toNat!, pf z, pf pest)
     (s, { model := s!"{fb (ciF1 z c k sc n pest)} {fb (ciF2 z c k sc n pest)} {fb (probitArg (pconf conf))}" })
-  | ["gather", k, sc, conf, calcCi, orig, remaining, mat, matchSize] =>
+  | "gather" :: k :: sc :: conf :: calcCi :: orig :: remaining :: mat :: matchSize :: rest =>
     let (k, sc) := (k.toNat!, sc.toNat!)
-    let (orig, remaining, mat) := (natList orig, natList remaining, natList mat)
-    let r : GatherRatios Float :=
-      gatherRatios (isect mat orig) (isect mat remaining) orig.length mat.length matchSize.toNat!
+    let ms := match rest with
+      | m :: _ => m.toNat!
+      | [] => sc
+    let mq := Scaled.maxHashForScaled sc
+    -- the three sketches as `add_hash` builds them at their own scaled
+    let orig := sketchOf mq (natList orig)
+    let remaining := sketchOf mq (natList remaining)
+    let mat := sketchOf (Scaled.maxHashForScaled ms) (natList mat)
     -- the interval itself goes through Brent/probit: the harness checks that the fields are the
     -- function's values at (f_unique_to_query | f_match, ksize, scaled, n_unique_kmers, confidence)
-    let g := gatherAni (fun _ _ _ _ _ => ((0.0 : Float), (0.0 : Float))) r k sc
-      (nUniqueKmers mat.length sc) (calcCi == "1") (pconf conf)
-    let tok (o : Option (Float × Float)) := if o.isSome then "same" else "none"
-    (s, { model := " ".intercalate <|
-      [fb r.fOrigQuery, fb r.fMatchOrig, fb r.fUniqueToQuery, fb r.fMatch,
-       fb g.queryContainmentAni, fb g.matchContainmentAni, fb g.averageContainmentAni,
-       fb g.maxContainmentAni, tok g.queryCi, tok g.matchCi] })
-  | "gatherv" :: _ => (s, { model := "-", spec := "ani-ok avg-ok max-ok ci-ok" })
+    -- of the DOWNSAMPLED match (`nu=` ties its n_unique_kmers to the model's)
+    match gatherStatsAni (fun _ _ _ _ _ => ((0.0 : Float), (0.0 : Float))) mq k sc ms orig remaining mat
+        matchSize.toNat! (calcCi == "1") (pconf conf) with
+    | none => (s, { model := "err CannotUpsampleScaled" })
+    | some (r, g, nu) =>
+      let tok (o : Option (Float × Float)) := if o.isSome then "same" else "none"
+      (s, { model := " ".intercalate <|
+        [fb r.fOrigQuery, fb r.fMatchOrig, fb r.fUniqueToQuery, fb r.fMatch,
+         fb g.queryContainmentAni, fb g.matchContainmentAni, fb g.averageContainmentAni,
+         fb g.maxContainmentAni, tok g.queryCi, tok g.matchCi, s!"nu={nu}"] })
+  | "gatherv" :: _ :: sc :: _ :: _ :: _ :: _ :: _ :: _ :: rest =>
+    -- the property on the reported values, and: a finer match gives exactly what the same match
+    -- downsampled before the call gives (theorem `gather_downsample_invariant` for the model)
+    let coarser : Bool := match rest with
+      | m :: _ => decide (m.toNat! > sc.toNat!)
+      | [] => false
+    (s, { model := "-",
+          spec := if coarser then "err CannotUpsampleScaled"
+                  else "ani-ok avg-ok max-ok ci-ok pre-ratios-same pre-ani-same pre-ci-same" })
   | _ => (s, { model := "bad-op" })
 
 def main : IO Unit := Driver.run () stepC19
